@@ -357,3 +357,5 @@ MANIFEST = {
     'technique': 'blocked-edge reachability/dominance + term extraction + provenance',
     'design_ref': 'DESIGN.md 3/C18',
 }
+MANIFEST['note'] += (' Also decided here (necessary conditions shared between properties or added after the independent '
+                     'change rounds, DESIGN.md 8.7): Message.to_bytes keeps nothing (from C05), parse errors leave process_message, half-open states by name.')
